@@ -170,6 +170,10 @@ type c09Replay struct {
 	Detail string `json:"detail,omitempty"`
 	// KM: a key-material case (c09_keymat.go); `-replay` re-runs exactly this one
 	KM *kmReplay `json:"key_material,omitempty"`
+	// AN: an abort-notice case (c09_abort.go); `-replay` re-runs that protocol family / schedule / seed
+	AN *anReplay `json:"abort_notice,omitempty"`
+	// TP: a two-party cross-session replay (c09Doerner); `-replay` re-runs the Doerner part
+	TP string `json:"two_party,omitempty"`
 }
 
 func runC09(c *ctx) {
@@ -180,6 +184,15 @@ func runC09(c *ctx) {
 			c.res.Rule = "replay of one key-material case"
 			c.res.Note("replay: only the key-material case %+v", *rp.KM)
 			c.c09KeyMaterial(rp.KM)
+			return
+		} else if err == nil && rp.AN != nil {
+			c.res.Rule = "replay of one abort-notice case"
+			c.res.Note("replay: only the abort-notice case %+v", *rp.AN)
+			c.c09AbortNotices(rp.AN)
+			return
+		} else if err == nil && rp.TP != "" {
+			c.res.Rule = "replay of the two-party cross-session replays"
+			c.c09Doerner()
 			return
 		}
 	}
@@ -329,6 +342,8 @@ func (c *ctx) c09Replay() {
 	c.c09Doerner()
 	// (4) proof replay under another sender's name
 	c.c09ProofReplay()
+	// (5) abort notices (round-0 messages) of other sessions, every family, both handlers
+	c.c09AbortNotices(nil)
 }
 
 // twoPartySim: ids[0] is the receiver ("Bob"), ids[1] the sender. Leaders as in the repository's own usage:
@@ -380,6 +395,50 @@ func (c *ctx) c09Doerner() {
 					"a Doerner key-generation message is acceptable to a signing session with the same session id and parties (protocol ids are equal)",
 					c09Replay{What: "cross-protocol replay", Detail: fmt.Sprintf("keygen message round %d from %s: CanAccept on the sign handler of %s = true (protocol %q)", m.RoundNumber, m.From, n.ID, m.Protocol)})
 				return
+			}
+		}
+	}
+	c.c09DoernerSiblings()
+}
+
+// c09DoernerSiblings: two-party sessions (Doerner keygen, sign) differing in the session id only (another one / none), and keygen
+// vs sign with the same id: every message of the sibling session at every position of the victim session (c07_twoparty.go
+// tpForeignRun): CanAccept false, state fingerprint unchanged, undisturbed result; victim nodes replayed in the two-party model.
+func (c *ctx) c09DoernerSiblings() {
+	specs, err := tpSpecs()
+	if err != nil {
+		c.res.Note("C09 two-party siblings: Doerner reference sessions did not complete: %v", err)
+		return
+	}
+	for _, sp := range specs {
+		ref, err := c.tpReference(sp)
+		if err != nil {
+			c.res.Note("C09 two-party siblings: %s reference run failed: %v", sp.Name, err)
+			continue
+		}
+		for _, sib := range sp.Sibs {
+			o := c.tpForeignRun(sp, ref, sib)
+			class := "replay/" + sp.Name + "/" + sib.Name
+			if o.Skip != "" || o.SameTag {
+				// equal tags: the key-material cases judge them (Doerner: message and roles are outside the statement)
+				c.res.Case(class+"/not-used", class, false)
+				continue
+			}
+			c.res.Case(class, class, o.Offered > 0)
+			rp := c09Replay{What: "cross-session replay (two-party handler)", A: sp.Name, B: sib.Name, Detail: o.Bad, TP: sp.Name + "/" + sib.Name}
+			if o.Bad != "" {
+				c.res.Violate("property", "C09/replay/"+sp.Name+"/"+sib.Name, "a message of a two-party session differing in "+sib.Name+" was accepted by / changed a running "+sp.Name+" session", rp)
+			}
+			if o.Dead || o.Sim == nil {
+				continue
+			}
+			for _, id := range o.Sim.IDs {
+				i, mo, ro, err := c.CompareTwoPartyWithModel(o.Sim, o.Sim.Nodes[id], ref.Shapes[id], true, true)
+				c.res.Corr(err == nil && i < 0)
+				if err != nil || i >= 0 {
+					rp.Detail = fmt.Sprintf("node %s event %d: model %s, handler %s (err %v)", id, i, mo, ro, err)
+					c.res.Violate("correspondence", "C09/replay/twoparty-handler-model/"+sp.Name, "two-party handler state differs from the Coq model after an event (cross-session replay)", rp)
+				}
 			}
 		}
 	}
